@@ -345,7 +345,7 @@ def _pool_map(fn, cfgs):
 
 
 def check_assign(tier, seed, n_cases=None):
-    n = n_cases or (200 if tier == "quick" else 2400)
+    n = n_cases or (150 if tier == "quick" else 3000)
     ck = Check("assign_confidence_levels", "mokapot.confidence.assign_confidence",
                "random: %d configurations (seed %d), 1-3 collections of 8-30 PSMs each (a collection grows by one "
                "row per 40 rejected draws), spectrum multiplicity 1-3, 0-2 extra level columns, "
@@ -387,7 +387,7 @@ def _rollup_worker(cfg):
 
 
 def check_rollup_tool(tier, seed, n_cases=None):
-    n = n_cases or (40 if tier == "quick" else 400)
+    n = n_cases or (30 if tier == "quick" else 450)
     ck = Check("rollup_tool", "mokapot.brew_rollup.main",
                "random: %d cases (seed %d): 1-3 prefixed collections of 12-30 PSMs; their *.psms result files "
                "written by assign_confidence (de-dup on, decoys on, CSV) are rolled up by brew_rollup --level psm "
